@@ -91,8 +91,14 @@ impl CleanMarkerStore {
                 format!("clean marker serialize failed: {:?}", e),
             )
         })?;
+        #[cfg(walrus_verif)]
+        crate::wal::verif::io_event("write_small");
         fs::write(&tmp_path, &bytes)?;
+        #[cfg(walrus_verif)]
+        crate::wal::verif::io_event("fsync");
         fs::File::open(&tmp_path)?.sync_all()?;
+        #[cfg(walrus_verif)]
+        crate::wal::verif::io_event("rename");
         fs::rename(&tmp_path, path)?;
         Ok(())
     }
